@@ -6,6 +6,7 @@ exhibited). The statement "then some check fails" for transcript-bound positions
 Tie / search: the sweep below IS the violation search: every scalar position of accepted proofs (fixture + shipped) is replaced
 (+1, 0, P-1 / type max, and for configuration / public-input scalars +2^32, +2^64, +2^128, +7*2^33) or its element deleted or swapped with its neighbour; the REAL verifier must not accept; a sample (and every
 accepted mutant) also goes through the Lean pipeline model. Appending trailing elements is compared with the model only."""
+import zlib
 import framework as fw
 from framework import P
 from props import prooflib as PL
@@ -14,13 +15,13 @@ PID = 'C02'
 LEVEL = 'proof'
 LEAN_TARGETS = ['Swiftness.Props.C02']
 TRANSLATOR_PARTS = ('consts', 'ast')
-DRV_LAYOUTS = ['recursive', 'dex']   # model sample: static layouts
+DRV_LAYOUTS = ['dex', 'recursive', 'recursive_with_poseidon', 'small', 'starknet', 'starknet_with_keccak']
 BUILDS = {'quick': [('k160', 'stone5', 'full', 'all_layouts', 'parser'), ('b248', 'stone6', 'full', 'all_layouts', 'parser')],
           'thorough': [('k160', 'stone5', 'full', 'all_layouts', 'parser'), ('b248', 'stone6', 'full', 'all_layouts', 'parser')]}
 RULE = ('bases: in-tree fixture + shipped recursive/dex stone5 proofs (thorough: all six static stone5 proofs). positions: every scalar in the '
         '37-token proof value (config numbers, public-input fields, commitments, oods values, FRI coefficients, nonce, decommitted cells, '
         'authentication nodes, FRI leaves). quick: a seed-dependent stride sample (~700 mutants per base) always including every config / '
-        'public-input scalar; thorough: every position x {+1, 0, max, one word-size alias, delete, swap}; configuration / public-input scalars also x {+2^32, +2^64, +2^128, +7*2^33} in both tiers. Model: every 25th mutant + every accepted one. '
+        'public-input scalar; thorough: every position of the fixture and ~600 strided positions of each shipped proof x {+1, 0, max, one word-size alias, delete, swap}; configuration / public-input scalars also x {+2^32, +2^64, +2^128, +7*2^33} in both tiers. Model: every 25th mutant + every accepted one. '
         'non-trivial = all.')
 ASSUMPTIONS = ['transcript-bound positions are rejected with overwhelming probability only (random-oracle heuristic); a legitimately accepted mutant would be reported',
                'pipeline model covers static layouts (dynamic: real code only)']
@@ -46,7 +47,8 @@ def cases(rng, tier, feats, drv_ok):
     for b in bases:
         out.append({'line': b.line(), 'kind': 'base', 'expect': 'ok', 'name': b.name, 'pos': '-'})
         pos = b.positions()
-        stride = 1 if tier == 'thorough' else max(1, len(pos) // 230)
+        # thorough: every position of the fixture; the shipped proofs (~10^4 positions of ~300 kB lines each) at a stride that keeps the run in memory
+        stride = (1 if b.name == 'fixture' else max(1, len(pos) // 600)) if tier == 'thorough' else max(1, len(pos) // 230)
         off = rng.below(stride)
         for n, (i, path) in enumerate(pos):
             small = i < 23 and PL.KIND[i] != 'rows' or (i < 23 and i != PL.IDX['pi.main_page'])
@@ -81,6 +83,10 @@ def cases(rng, tier, feats, drv_ok):
             extra = PL.extra_element(i, path)
             out.append({'line': b.line(PL.mod_list(b.v, i, path, lambda l, e=extra: l + [e])), 'kind': 'append', 'expect': 'any', 'name': b.name,
                         'pos': f'{PL.TOK[i]}{list(path)}'})
+    # model sample: every 25th mutant of the fixture / recursive / dex bases, every 200th of the larger layouts (thorough tier)
+    for c in out:
+        if c.get('hxonly') is False and not any(x in c['name'] for x in ('fixture', 'recursive/', 'dex/')):
+            c['hxonly'] = (zlib.crc32(c['line'][-4000:].encode()) % 8) != 0
     return out
 
 
